@@ -136,6 +136,48 @@ NAMESPACES: typing.Dict[str, typing.Dict[str, typing.Any]] = {
             ),
         },
     },
+    # dependency CHAINS across sibling namespaces: the head T of a chain T -> U -> V (-> W) reaches the tail only through
+    # other composites (nesting depth 2 or 3; T's own file never names the tail), and the links live in namespaces that
+    # are siblings / cousins of T's, so whether the tail's file, its namespace module or the middle link was rendered
+    # BEFORE or AFTER T's file is decided by the iteration order of one nested-namespace set (3 siblings: all 6 orders).
+    # Every placement of (U, V) relative to T over {same namespace, sibling b, sibling c} except "everything in one
+    # namespace" occurs once; each chain has links of its own (no chain renders the tail of another one earlier):
+    #   1  a.T1 -> b.U1 -> b.V1          both links in ONE sibling          (+ a.S6: a service as the head, both halves)
+    #   2  a.T2 -> b.U2[<=2] -> c.V2[2]  links in two different siblings, through arrays, delimited tail
+    #   3  c.T3 -> c.U3 (union) -> b.V3  first link in T's namespace, tail in a sibling
+    #   4  b.T4 -> a.U4 -> c.V4 -> c.W4  depth 3 over all three siblings
+    #   5  c.p.T5 -> b.q.U5 -> b.q.V5    cousins (one level further down)
+    #   6  a.T7 -> b.U7 -> a.V7          the tail back in T's own namespace, the middle link in a sibling
+    "chains": {
+        "root": "x",
+        "files": {
+            "x/a/T1.1.0.dsdl": "uint8 n\nx.b.U1.1.0 u\n" + _S,
+            "x/a/S6.1.0.dsdl": "x.b.U1.1.0 u\n" + _S + "---\nx.b.U1.1.0[<=2] r\n" + _S,
+            "x/b/U1.1.0.dsdl": "x.b.V1.1.0 v\n" + _S,
+            "x/b/V1.1.0.dsdl": "uint8 v\n" + _S,
+            "x/a/T2.1.0.dsdl": "x.b.U2.1.0[<=2] u\n" + _S,
+            "x/b/U2.1.0.dsdl": "x.c.V2.1.0[2] v\n" + _S,
+            "x/c/V2.1.0.dsdl": "uint16 v\n@extent 64\n",
+            "x/c/T3.1.0.dsdl": "x.c.U3.1.0 u\n" + _S,
+            "x/c/U3.1.0.dsdl": "@union\nx.b.V3.1.0 v\nuint8 w\n" + _S,
+            "x/b/V3.1.0.dsdl": "bool v\n" + _S,
+            "x/b/T4.1.0.dsdl": "x.a.U4.1.0 u\n" + _S,
+            "x/a/U4.1.0.dsdl": "x.c.V4.1.0 v\n" + _S,
+            "x/c/V4.1.0.dsdl": "x.c.W4.1.0 w\n" + _S,
+            "x/c/W4.1.0.dsdl": "int8 v\n" + _S,
+            "x/c/p/T5.1.0.dsdl": "x.b.q.U5.1.0 u\n" + _S,
+            "x/b/q/U5.1.0.dsdl": "x.b.q.V5.1.0 v\n" + _S,
+            "x/b/q/V5.1.0.dsdl": "uint8 v\n" + _S,
+            "x/a/T7.1.0.dsdl": "x.b.U7.1.0 u\n" + _S,
+            "x/b/U7.1.0.dsdl": "x.a.V7.1.0 v\n" + _S,
+            "x/a/V7.1.0.dsdl": "float32 v\n" + _S,
+        },
+        # (head, tail) per chain: type names; used by the vacuity guard (both generation orders of head and tail seen)
+        "chains": [
+            ("x.a.T1", "x.b.V1"), ("x.a.S6", "x.b.V1"), ("x.a.T2", "x.c.V2"), ("x.c.T3", "x.b.V3"),
+            ("x.b.T4", "x.c.W4"), ("x.c.p.T5", "x.b.q.V5"), ("x.a.T7", "x.b.U7"),
+        ],
+    },
     # nested namespaces whose names differ only in letter case (PyDSDL accepts them); HTML only
     "case": {
         "root": "x",
@@ -173,6 +215,7 @@ CORE_CFGS: typing.List[Cfg] = [
     ("fan", "html", True),
     ("xroot", "c", False),
     ("deep", "py", True),
+    ("chains", "py", True),
     ("multi", "html", True),
     ("case", "html", True),
 ]
@@ -384,6 +427,151 @@ def _source_paths(obj: typing.Any, seen: typing.Optional[set] = None, depth: int
     return out
 
 
+# The lazily filled caches of pydsdl's bit-length-set solver (pydsdl/_bit_length_set/_symbolic.py, MemoizationOperator):
+# the ONLY state the known finding C07-pickled-memo is about.  A pickled model that differs in anything else is a
+# different root cause and gets its own cause tag (named after the attributes that differ).
+PYDSDL_LAZY_MEMO = frozenset(
+    "MemoizationOperator." + n for n in ("_min", "_max", "_modula", "_expansion")
+)
+_ATOMS = (type(None), bool, int, float, complex, str, bytes)
+
+
+def _model_diff(a: typing.Any, b: typing.Any) -> typing.Tuple[typing.Set[str], bool]:
+    """
+    Structural comparison of two unpickled models the way pickle sees them (instance state through __reduce_ex__, so
+    caches that are not pickled - e.g. of pathlib paths - do not count).  Returns ({"Class.attribute" of every place where
+    the two graphs differ, pathlib objects excepted; ":order"/":len"/":type" appended where only that differs},
+    a pathlib object differs).
+    """
+    out: typing.Set[str] = set()
+    seen: typing.Set[typing.Tuple[int, int]] = set()
+    keep: typing.List[typing.Any] = []  # temporaries stay alive: ids in `seen` are never reused
+    path_differs = [False]
+    stack: typing.List[typing.Tuple[typing.Any, typing.Any, str]] = [(a, b, "<model>")]
+    steps = 0
+    while stack:
+        x, y, attr = stack.pop()
+        steps += 1
+        if steps > 2_000_000:
+            out.add("<model>:too_large_to_compare")
+            break
+        if x is y:
+            continue
+        if type(x) is not type(y):
+            out.add(attr + ":type")
+            continue
+        if isinstance(x, _ATOMS):
+            if x != y:
+                out.add(attr)
+            continue
+        if isinstance(x, (type, type(len), type(_model_diff))):  # classes / functions are pickled by name
+            out.add(attr)
+            continue
+        key = (id(x), id(y))
+        if key in seen:
+            continue
+        seen.add(key)
+        if isinstance(x, pathlib.PurePath):
+            if x != y:
+                path_differs[0] = True  # the location of the inputs: not an attribute-level difference of its own
+            continue
+        if isinstance(x, (list, tuple)):
+            if len(x) != len(y):
+                out.add(attr + ":len")
+            stack.extend((p, q, attr) for p, q in zip(x, y))
+            continue
+        if isinstance(x, dict):
+            kx, ky = list(x), list(y)
+            try:
+                same_keys = set(kx) == set(ky)
+            except TypeError:
+                same_keys = False
+            if not same_keys:
+                out.add(attr)
+            elif kx != ky:
+                out.add(attr + ":order")
+            stack.extend((x[k], y[k], attr) for k in kx if k in y)
+            continue
+        if isinstance(x, (set, frozenset)):
+            lx, ly = list(x), list(y)
+            if all(isinstance(e, _ATOMS) for e in lx + ly):
+                if x != y:
+                    out.add(attr)
+                elif lx != ly:
+                    out.add(attr + ":order")
+            else:  # elements compared by position of a repr-sorted listing
+                lx.sort(key=repr)
+                ly.sort(key=repr)
+                keep.extend((lx, ly))
+                stack.append((lx, ly, attr))
+            continue
+        try:
+            rx, ry = x.__reduce_ex__(2), y.__reduce_ex__(2)
+        except Exception:  # pylint: disable=broad-except
+            if pickle.dumps(x, 2) != pickle.dumps(y, 2):
+                out.add(attr)
+            continue
+        keep.extend((rx, ry))
+        if isinstance(rx, str) or isinstance(ry, str):
+            if rx != ry:
+                out.add(attr)
+            continue
+        cls = type(x).__name__
+        if rx[0] is not ry[0]:
+            out.add(attr + ":type")
+            continue
+        stack.append((rx[1], ry[1], attr))
+        sx = rx[2] if len(rx) > 2 else None
+        sy = ry[2] if len(ry) > 2 else None
+        states = [(sx, sy)]
+        if isinstance(sx, tuple) and isinstance(sy, tuple) and len(sx) == len(sy) == 2:  # (__dict__, slots)
+            states = [(sx[0], sy[0]), (sx[1], sy[1])]
+        for p, q in states:
+            if isinstance(p, dict) and isinstance(q, dict):
+                for k in list(p) + [k for k in q if k not in p]:
+                    if k not in p or k not in q:
+                        out.add(f"{cls}.{k}")
+                    else:
+                        stack.append((p[k], q[k], f"{cls}.{k}"))
+                if [k for k in p if k in q] != [k for k in q if k in p]:
+                    out.add(f"{cls}.__dict__:order")
+            else:
+                stack.append((p, q, f"{cls}.<state>"))
+        for i in (3, 4):
+            ix = list(rx[i]) if len(rx) > i and rx[i] is not None else None
+            iy = list(ry[i]) if len(ry) > i and ry[i] is not None else None
+            if ix is not None or iy is not None:
+                keep.extend((ix, iy))
+                stack.append((ix, iy, f"{cls}.<items>"))
+    return out, path_differs[0]
+
+
+def _model_causes(pa: bytes, pb: bytes) -> typing.Set[str]:
+    """Cause tags for two differing pickles of a type model."""
+    try:
+        ma, mb = pickle.loads(pa), pickle.loads(pb)  # nosec - our own output
+    except Exception:  # pylint: disable=broad-except
+        return {"pickled_model_not_loadable"}
+    causes: typing.Set[str] = set()
+    try:
+        paths_differ = _source_paths(ma) != _source_paths(mb)
+    except Exception:  # pylint: disable=broad-except
+        paths_differ = False
+    names, path_objects_differ = _model_diff(ma, mb)
+    if paths_differ or path_objects_differ:  # pathlib objects that differ; every OTHER attribute is reported on its own
+        causes.add("abs_source_path_in_pickled_model")
+    memo = {n for n in names if n.split(":")[0] in PYDSDL_LAZY_MEMO}
+    other = names - memo
+    if memo:
+        causes.add("pickled_model_content")  # exactly the state named by C07-pickled-memo
+    if other:
+        short = sorted({n.split(".", 1)[-1] for n in other})
+        causes.add("pickled_model_attr:" + ",".join(short[:3]) + (",..." if len(short) > 3 else ""))
+    if not causes:
+        causes.add("pickled_model_bytes")  # equal object graphs, different pickles (sharing of objects / memo ids)
+    return causes
+
+
 def _blob_causes(a: bytes, b: bytes) -> typing.Set[str]:
     causes = set()
     if a[4:8] != b[4:8]:
@@ -393,11 +581,7 @@ def _blob_causes(a: bytes, b: bytes) -> typing.Set[str]:
     except Exception:  # pylint: disable=broad-except
         return causes | {"model_blob_not_gzip"}
     if pa != pb:
-        try:
-            sa, sb = _source_paths(pickle.loads(pa)), _source_paths(pickle.loads(pb))  # nosec - our own output
-        except Exception:  # pylint: disable=broad-except
-            sa = sb = set()
-        causes.add("abs_source_path_in_pickled_model" if sa != sb else "pickled_model_content")
+        causes |= _model_causes(pa, pb)
     elif a[:4] + a[8:] != b[:4] + b[8:]:
         causes.add("gzip_stream_bytes")
     return causes
@@ -738,7 +922,7 @@ def run(ctx: Ctx) -> int:
         if ctx.thorough:
             tuples = all_tuples
         elif cfg in core:  # the two configurations added for ordering ties: schedules and hash seeds are the point
-            tuples = [] if cfg[0] in ("multi", "case") else core_tuples
+            tuples = [] if cfg[0] in ("multi", "case", "chains") else core_tuples
         else:  # the seed selects whole configurations (a tuple needs its neighbours to be attributed)
             tuples = all_tuples if ctx.in_slice(cfg_id(cfg) + "|ambient", 24) else []
         jobs.append({"cfg": cfg, "tuples": tuples, "scratch": scratch})
